@@ -713,9 +713,13 @@ class World:
         have read lies before the end mark; what became durable after the start mark may have been missed)."""
         mark = [self.durable_seq, -1]
         self.sweep_marks.append(mark)
+        wk = self.current_worker()
+        prev = self.ctx.get(wk, ("idle", ""))
+        self.ctx[wk] = ("recovery", "")
         try:
             return self.processor.run_recovery()
         finally:
+            self.ctx[wk] = prev
             mark[1] = self.durable_seq
 
     def record_execution(self, key: str, stage: Any, result: str) -> dict[str, Any]:
